@@ -8,25 +8,30 @@
    operation; the result the property PRESCRIBES is recorded in hist; TLC enumerates every history up to Depth
    and harness/replay_c19.py performs each of them with the real asynq.mock.patch and compares.
 
-   Exits are LIFO (the property speaks of NESTED and SEQUENTIAL patches): ExitNormal/ExitException leave the
-   innermost with-block / decorated function, Stop stops the innermost start()ed patch, StopAll is offered when
-   the start()ed patches are exactly the top of the stack. *)
+   Call(convention) is scheduled deterministically: after EVERY operation (and before the first) the target is
+   called once through every convention that exists for what the slot holds, so every history record carries
+   the prescribed outcome of those calls (res.convs / res.reach / res.bound; the call through convs[i] is made
+   with the positional argument i and the keyword argument y = step number).
+
+   Exits are LIFO (the property speaks of NESTED and SEQUENTIAL patches): Leave ends the innermost with-block /
+   decorated function / decorated test class method normally or by an exception, Stop stops the innermost
+   start()ed patch, StopAll is offered when the start()ed patches are exactly the top of the stack. *)
 EXTENDS Naturals, Sequences, FiniteSets, TLC, Json, IOUtils
 
 Depth      == IF "DEPTH" \in DOMAIN IOEnv THEN atoi(IOEnv.DEPTH) ELSE 4
 MaxPatches == IF "PATCHES" \in DOMAIN IOEnv THEN atoi(IOEnv.PATCHES) ELSE 2
 MaxNest    == IF "NEST" \in DOMAIN IOEnv THEN atoi(IOEnv.NEST) ELSE 2
 
-Targets == {"modfn", "meth", "cmeth", "smeth", "attr"}
-Apis    == IF "API" \in DOMAIN IOEnv THEN {IOEnv.API} ELSE {"str", "obj"}
-Block   == {"with", "deco", "classdeco"}          \* styles that end by leaving a block
+Targets   == {"modfn", "meth", "cmeth", "smeth", "attr"}
+Apis      == IF "API" \in DOMAIN IOEnv THEN {IOEnv.API} ELSE {"str", "obj"}
+Block     == {"with", "deco", "classdeco"}          \* styles that end by leaving a block
 AllStyles == Block \cup {"start"}
 AllRepls  == {"default", "function", "boundmeth", "callobj", "newcallable", "value"}
 (* the thorough tier's deeper run (3 patches, nesting 3) uses a smaller alphabet: PRESET=small *)
-Small   == "PRESET" \in DOMAIN IOEnv /\ IOEnv.PRESET = "small"
-Styles  == IF Small THEN {"with", "deco", "start"} ELSE AllStyles
-Repls   == IF Small THEN {"default", "function", "value"} ELSE AllRepls
-Convs   == <<"sync", "asynq", "yield", "asyncio">>
+Small     == "PRESET" \in DOMAIN IOEnv /\ IOEnv.PRESET = "small"
+Styles    == IF Small THEN {"with", "deco", "start"} ELSE AllStyles
+Repls     == IF Small THEN {"default", "function", "value"} ELSE AllRepls
+Convs     == <<"sync", "asynq", "yield", "asyncio">>
 
 VARIABLES target, api, slot, stack, kinds, hist
 vars == <<target, api, slot, stack, kinds, hist>>
@@ -36,33 +41,28 @@ Init == /\ target \in Targets /\ api \in Apis
         /\ slot = 0 /\ stack = <<>> /\ kinds = <<>> /\ hist = <<>>
 
 Top == stack[Len(stack)]
-Callable(ks, s) == s = 0 \/ ks[s] # "value"
 
 (* what an observer sees in the slot: the original, the non-callable value of patch k installed AS IS, or
    "something else" (a mock / a wrapper around the replacement - its identity is not prescribed) *)
 SlotTok(ks, s) == IF s = 0 THEN "orig" ELSE IF ks[s] = "value" THEN "val" \o ToString(s) ELSE "other"
 
-(* Python binds a plain function stored in a class to the instance it is reached through; nothing else binds *)
-Bound(ks, s) == IF target = "meth" /\ (s = 0 \/ ks[s] = "function") THEN "inst" ELSE "none"
-
-(* the calling conventions that exist for what is in the slot *)
+(* the calling conventions that exist for what is in the slot: a non-callable value can only be read; the
+   plain attribute is not an async function, only the synchronous call of a callable replacement is stated *)
 ConvsOf(ks, s) ==
   IF s # 0 /\ ks[s] = "value" THEN <<"read">>
   ELSE IF target = "attr" THEN (IF s = 0 THEN <<"read">> ELSE <<"sync">>)
   ELSE Convs
 
-(* every convention reaches what is in the slot (= the innermost replacement while a patch is active) with
-   the given arguments x (positional) and y (keyword); x differs per convention, y per step *)
-Prescribed(ks, s, step) ==
-  LET cs == ConvsOf(ks, s) IN
-  [i \in 1..Len(cs) |-> [conv |-> cs[i], reach |-> s, bound |-> Bound(ks, s), x |-> i, y |-> step,
-                         slot |-> SlotTok(ks, s)]]
+(* what one call through convention c reaches: whatever is in the slot (= the innermost replacement while a
+   patch is active, the original otherwise) - the same for every convention.  Python binds a plain function
+   stored in a class to the instance it is reached through (so does the original method); nothing else binds. *)
+Reach(ks, s, c) ==
+  [reach |-> s, bound |-> IF target = "meth" /\ (s = 0 \/ ks[s] = "function") THEN "inst" ELSE "none"]
 
-(* Call(convention): after EVERY operation the harness calls the target once through every convention, so each
-   history record carries the state the slot must be in and the prescribed outcome of those calls *)
 Rec(op, style, repl, k, ks, s) ==
   [op |-> op, style |-> style, repl |-> repl, k |-> k,
-   res |-> [slot |-> SlotTok(ks, s), calls |-> Prescribed(ks, s, Len(hist) + 1)]]
+   res |-> [slot |-> SlotTok(ks, s), convs |-> ConvsOf(ks, s),
+            reach |-> Reach(ks, s, ConvsOf(ks, s)[1]).reach, bound |-> Reach(ks, s, ConvsOf(ks, s)[1]).bound]]
 
 Enter(style, repl) ==
   /\ Len(hist) < Depth /\ Len(stack) < MaxNest /\ Len(kinds) < MaxPatches
@@ -107,15 +107,14 @@ Innermost == stack # <<>> => slot = Top.k                  \* while active: the 
 SavedChain == \A i \in 1..Len(stack) : stack[i].saved = IF i = 1 THEN 0 ELSE stack[i - 1].k
 RestoreStep ==                                             \* every exit restores exactly what was replaced
   [][Len(stack') < Len(stack) => slot' = stack[Len(stack') + 1].saved]_vars
-ConventionsAgree ==
-  \A i \in 1..Len(hist) :
-    LET cs == hist[i].res.calls IN
-    \A a, b \in 1..Len(cs) : cs[a].reach = cs[b].reach /\ cs[a].bound = cs[b].bound /\ cs[a].y = cs[b].y
+ConventionsAgree ==                                        \* all conventions reach the same object, bound alike
+  LET cs == ConvsOf(kinds, slot) IN
+  \A a, b \in 1..Len(cs) : Reach(kinds, slot, cs[a]) = Reach(kinds, slot, cs[b])
+OriginalIffRestored == \A i \in 1..Len(hist) : (hist[i].res.slot = "orig") <=> (hist[i].res.reach = 0)
 NonCallableAsIs ==
   \A i \in 1..Len(hist) : hist[i].op = "enter" /\ hist[i].repl = "value" =>
-    hist[i].res.slot = "val" \o ToString(hist[i].k)
+    hist[i].res.slot = "val" \o ToString(hist[i].k) /\ hist[i].res.convs = <<"read">>
 
-Terminal == \/ Len(hist) = Depth
-            \/ (stack = <<>> /\ Len(kinds) = MaxPatches)
+Terminal == Len(hist) = Depth \/ (hist # <<>> /\ stack = <<>> /\ Len(kinds) = MaxPatches)
 Export == Terminal => PrintT(ToJson([h |-> hist, target |-> target, api |-> api]))
 =============================================================================
